@@ -19,6 +19,15 @@ import (
 
 	"github.com/cosmos/cosmos-proto/internal/verifh/vschema"
 	"google.golang.org/protobuf/proto"
+	"google.golang.org/protobuf/reflect/protodesc"
+	"google.golang.org/protobuf/reflect/protoregistry"
+	_ "google.golang.org/protobuf/types/known/anypb"
+	_ "google.golang.org/protobuf/types/known/durationpb"
+	_ "google.golang.org/protobuf/types/known/emptypb"
+	_ "google.golang.org/protobuf/types/known/fieldmaskpb"
+	_ "google.golang.org/protobuf/types/known/structpb"
+	_ "google.golang.org/protobuf/types/known/timestamppb"
+	_ "google.golang.org/protobuf/types/known/wrapperspb"
 	"google.golang.org/protobuf/types/descriptorpb"
 	"google.golang.org/protobuf/types/pluginpb"
 )
@@ -60,6 +69,8 @@ func tail(s string) string {
 	return s
 }
 
+var corpusFiles = map[string]*descriptorpb.FileDescriptorProto{}
+
 func main() {
 	plugin := flag.String("plugin", "", "plugin binary")
 	root := flag.String("root", "", "module root of the scratch copy")
@@ -77,10 +88,42 @@ func main() {
 	emit := func(corpus string, s *vschema.Schema) {
 		fileName := "verifcorpus/" + s.ID + "/" + s.ID + ".proto"
 		fd := s.ToFile(fileName)
+		// dependencies first (topological order): corpus files already emitted, then registered files
+		var files []*descriptorpb.FileDescriptorProto
+		seen := map[string]bool{}
+		var addDep func(path string)
+		addDep = func(path string) {
+			if seen[path] {
+				return
+			}
+			seen[path] = true
+			if d, ok := corpusFiles[path]; ok {
+				for _, dd := range d.Dependency {
+					addDep(dd)
+				}
+				files = append(files, d)
+				return
+			}
+			rf, err := protoregistry.GlobalFiles.FindFileByPath(path)
+			if err != nil {
+				fmt.Fprintln(os.Stderr, "unknown import", path)
+				return
+			}
+			im := rf.Imports()
+			for i := 0; i < im.Len(); i++ {
+				addDep(im.Get(i).Path())
+			}
+			files = append(files, protodesc.ToFileDescriptorProto(rf))
+		}
+		for _, d := range fd.Dependency {
+			addDep(d)
+		}
+		files = append(files, fd)
+		corpusFiles[fileName] = fd
 		req := &pluginpb.CodeGeneratorRequest{
 			FileToGenerate: []string{fileName},
 			Parameter:      proto.String("features=protoc+fast,paths=source_relative"),
-			ProtoFile:      []*descriptorpb.FileDescriptorProto{fd},
+			ProtoFile:      files,
 		}
 		res := genResult{ID: s.ID, Corpus: corpus, Line: s.Line()}
 		reqBytes, _ := proto.Marshal(req)
@@ -117,6 +160,9 @@ func main() {
 
 	for _, s := range vschema.Matrix(*full) {
 		emit("matrix", s)
+	}
+	for _, s := range vschema.Graph() {
+		emit("graph", s)
 	}
 	for _, s := range vschema.Names() {
 		emit("names", s)
